@@ -995,8 +995,25 @@ func init() {
 		return tb.Ite(tb.Bin("bvslt", x, y), tb.SConst(64, -1), tb.Ite(tb.Bin("bvslt", y, x), tb.Const(64, 1), tb.Const(64, 0)))
 	}
 	I["(time.Time).Unix"] = func(in *Interp, fn *ssa.Function, a []Value) Value {
-		// seconds since the Unix epoch are not modelled (would need a division by 10^9): an arbitrary value
-		return in.ex.NewVar("unix-seconds", 64)
+		// seconds since the Unix epoch are not modelled (would need a division by 10^9): an arbitrary value, which
+		// time.Unix(v, 0) maps back to the same instant (instants are whole seconds by harness assumption)
+		v := in.ex.NewVar("unix-seconds", 64)
+		in.unixMemo[v.ID] = in.timeOf(a[0])
+		return v
+	}
+	I["time.Unix"] = func(in *Interp, fn *ssa.Function, a []Value) Value {
+		// the zero Time is year 1; the Unix epoch lies 62135596800 s later
+		tb := in.tb
+		if st, ok := a[0].(*Term); ok {
+			if t, ok := in.unixMemo[st.ID]; ok {
+				if n, ok := a[1].(*Term); ok && n.IsConst() && n.K == 0 {
+					return in.timeVal(t)
+				}
+			}
+		}
+		sec := tb.Bin("bvadd", tb.Ext("sext", a[0].(*Term), TW), tb.SConst(TW, 62135596800))
+		ns := tb.Bin("bvadd", tb.Bin("bvmul", sec, tb.SConst(TW, 1000000000)), tb.Ext("sext", a[1].(*Term), TW))
+		return in.timeVal(ns)
 	}
 	I["(time.Time).String"] = func(in *Interp, fn *ssa.Function, a []Value) Value { return "<time>" }
 	I["(time.Time).Format"] = func(in *Interp, fn *ssa.Function, a []Value) Value { return "<time>" }
